@@ -519,8 +519,20 @@ func registerLibIntrinsics(p *Program) {
 		}
 		return out
 	})
+	// sync.Pool: Get hands back the most recently Put item if there is one (the
+	// aliasing-prone behaviour of the real pool on one P), otherwise New(); both
+	// are scheduling points so that users of a shared pool can interleave there.
 	p.reg("(*sync.Pool).Get", func(ex *Exec, fr *Frame, args []Value) Value {
-		pool := (*args[0].(*Value)).(Struct)
+		cell := args[0].(*Value)
+		if len(ex.threads) > 1 {
+			ex.schedule("Pool.Get")
+		}
+		if items := ex.pools[cell]; len(items) > 0 {
+			it := items[len(items)-1]
+			ex.pools[cell] = items[:len(items)-1]
+			return it
+		}
+		pool := (*cell).(Struct)
 		// field "New" is the last field
 		newFn := pool[len(pool)-1]
 		if isNil, _ := isNilValue(newFn); isNil {
@@ -528,7 +540,19 @@ func registerLibIntrinsics(p *Program) {
 		}
 		return ex.call(fr, fr.callPos, newFn, nil)
 	})
-	p.reg("(*sync.Pool).Put", noop)
+	p.reg("(*sync.Pool).Put", func(ex *Exec, fr *Frame, args []Value) Value {
+		cell := args[0].(*Value)
+		if it, ok := args[1].(Iface); ok && it.t != nil {
+			if ex.pools == nil {
+				ex.pools = map[*Value][]Value{}
+			}
+			ex.pools[cell] = append(ex.pools[cell], it)
+		}
+		if len(ex.threads) > 1 {
+			ex.schedule("Pool.Put")
+		}
+		return nil
+	})
 	p.reg("internal/stringslite.Clone", func(ex *Exec, fr *Frame, args []Value) Value { return args[0] })
 	p.reg("strings.Clone", func(ex *Exec, fr *Frame, args []Value) Value { return args[0] })
 	p.reg("internal/abi.NoEscape", func(ex *Exec, fr *Frame, args []Value) Value { return args[0] })
@@ -856,7 +880,12 @@ func init() {
 			var cell Value = t
 			return &cell
 		}
-		p.reg("time.NewTimer", func(ex *Exec, fr *Frame, args []Value) Value { return newTimer(ex, true) })
+		p.reg("time.NewTimer", func(ex *Exec, fr *Frame, args []Value) Value {
+			t := newTimer(ex, true).(*Value)
+			tt := ex.p.namedType("time", "Timer")
+			ex.timers = append(ex.timers, timerRec{cell: t, ch: ex.getField((*t).(Struct), tt, "C").(*Chan)})
+			return t
+		})
 		p.reg("time.AfterFunc", func(ex *Exec, fr *Frame, args []Value) Value {
 			t := newTimer(ex, false)
 			ex.timers = append(ex.timers, timerRec{fn: args[1]})
@@ -866,8 +895,17 @@ func init() {
 			ex.nextChanID++
 			return &Chan{id: ex.nextChanID, cap: 1, elemT: ex.p.namedType("time", "Time")}
 		})
-		p.reg("(*time.Timer).Stop", func(ex *Exec, fr *Frame, args []Value) Value { return tTrue })
-		p.reg("(*time.Timer).Reset", func(ex *Exec, fr *Frame, args []Value) Value { return tTrue })
+		setStopped := func(ex *Exec, args []Value, stopped bool) {
+			if c, ok := args[0].(*Value); ok {
+				for i := range ex.timers {
+					if ex.timers[i].cell == c {
+						ex.timers[i].stopped = stopped
+					}
+				}
+			}
+		}
+		p.reg("(*time.Timer).Stop", func(ex *Exec, fr *Frame, args []Value) Value { setStopped(ex, args, true); return tTrue })
+		p.reg("(*time.Timer).Reset", func(ex *Exec, fr *Frame, args []Value) Value { setStopped(ex, args, false); return tTrue })
 		p.reg("time.Sleep", func(ex *Exec, fr *Frame, args []Value) Value {
 			ex.schedule("sleep")
 			return nil
@@ -881,14 +919,33 @@ func init() {
 		p.reg("verif_FireTimers", func(ex *Exec, fr *Frame, args []Value) Value {
 			ts := ex.timers
 			for _, t := range ts {
-				ex.call(fr, fr.callPos, t.fn, nil)
+				if t.fn != nil {
+					ex.call(fr, fr.callPos, t.fn, nil)
+				}
 			}
+			return nil
+		})
+		// verif_TickTimers delivers the current instant on the channel of every
+		// time.NewTimer timer that is not stopped (a full channel drops the tick, as
+		// the runtime does): the harness decides when durations have elapsed
+		p.reg("verif_TickTimers", func(ex *Exec, fr *Frame, args []Value) Value {
+			for _, t := range ex.timers {
+				if t.ch != nil && !t.stopped {
+					ex.trySend(t.ch, now(ex))
+				}
+			}
+			ex.schedule("timer tick")
 			return nil
 		})
 	})
 }
 
-type timerRec struct{ fn Value }
+type timerRec struct {
+	fn      Value  // time.AfterFunc
+	cell    *Value // time.NewTimer: the timer
+	ch      *Chan
+	stopped bool
+}
 
 func init() {
 	extraIntrinsics = append(extraIntrinsics, func(p *Program) {
